@@ -316,6 +316,7 @@ def run(chk):
                f"valid() computes {panics.short_desc(d)}: a session created with lifetime 0 must be born expired")
     db_lookup(chk, prog)
     unknown_uid(chk, prog)
+    refresh_persisted(chk, prog)
     whole_password_and_expiry(chk, prog)
     lifetime_fields(chk, prog)
     from . import c02
@@ -754,6 +755,31 @@ def _only_the_lookup(d):
     if desc_contains(d, lambda y: y[0] in ("agg", "struct") or (y[0] == "multi" and any(not desc_contains(a, lambda z: z[0] == "call" and core.re.search(LOOKUP_UID, z[1]) is not None) for a in y[1]))):
         return False, "the user may be a stand-in built here instead of the looked-up one"
     return True, "the looked-up user"
+
+
+def refresh_persisted(chk, prog):
+    """R7.refresh_persisted: a successful refresh is written back: from the point where the session's expiry is renewed, every path to
+    `Ok(())` passes AuthDatabase::update_user (a write-back skipped under a comparison that ignores the expiry leaves the old expiry in force
+    while the caller was told the session was extended)."""
+    fn = AP + "refresh_session"
+    b = prog.bodies.get(fn)
+    chk.floor("AuthProvider::refresh_session", 1 if b else 0, 1)
+    if not b:
+        return
+    ss = prog.structs.get("humphrey_auth::session::Session", {}).get("fields", [])
+    ei = next((i for i, x in enumerate(ss) if x["name"] == "expiry"), None)
+    renew = [blk for blk, t in b.calls_to(r"session::Session::refresh$")]
+    for bi, blk in enumerate(b.blocks):
+        for s_ in blk["stmts"]:
+            if "pl" in s_ and s_["pl"]["p"] and [e[1] for e in s_["pl"]["p"] if e[0] == "f"][-1:] == [ei] and "Session" in str(s_["pl"]["p"]):
+                renew.append(bi)
+    writes = [blk for blk, t in b.calls_to(r"AuthDatabase::update_user$")]
+    chk.floor("expiry renewal sites in refresh_session", len(renew), 1)
+    oks = core.ok_return_blocks(b, "Ok")
+    for rb in renew:
+        w = core.must_pass(b, [rb], oks, through_nodes=writes)
+        chk.ob("R7.refresh_persisted", fn, "after the expiry was renewed every Ok return passes update_user", w is None and bool(writes),
+               "refresh_session can return Ok without storing the renewed session: the token still expires at its old time", where=b.where(rb), path=w)
 
 
 def unknown_uid(chk, prog):
